@@ -310,6 +310,35 @@ Definition srcset_urls (v : bytes) : res (list bytes) :=
   r <- srcset_urls_steps v ;; Ok (fst r).
 
 (* ---------------------------------------------------------------------------------------
+   internal/pkg/postprocessor/sitespecific/reddit/api.go
+
+   func ExtractAPIPostPermalinks(item *models.Item) (outlinks []*models.URL, err error) {
+       body, err := io.ReadAll(item.GetURL().GetBody()) ; if err != nil { return outlinks, err }
+       var data Post
+       err = json.Unmarshal(body, &data)          ; if err != nil { return outlinks, err }
+       if len(data.Data.Children) == 0 { return outlinks, fmt.Errorf("no children found in post") }
+       permalinks = append(permalinks,
+           fmt.Sprintf("https://www.reddit.com%s", data.Data.Children[0].Data.Permalink),
+           fmt.Sprintf("https://old.reddit.com%s", data.Data.Children[0].Data.Permalink))
+       ...
+   }
+   encoding/json is an oracle: [None] = Unmarshal failed, [Some (dist, perms)] = data.Data.Dist and the
+   Permalink of every element of data.Data.Children.  [by_dist] = the guard looks at the listing's
+   own counter instead of the slice (what the code must NOT do: the server controls both).
+   Result: [None] = an error is returned. *)
+Definition reddit_permalinks_g (by_dist : bool) (decoded : option (Z * list bytes)) : res (option (list bytes)) :=
+  match decoded with
+  | None => Ok None
+  | Some (dist, children) =>
+      if (if by_dist then dist =? 0 else len children =? 0) then Ok None
+      else
+        p <- index children 0 ;;
+        Ok (Some [bs "https://www.reddit.com" ++ p; bs "https://old.reddit.com" ++ p])
+  end.
+Definition reddit_permalinks (decoded : option (Z * list bytes)) : res (option (list bytes)) :=
+  reddit_permalinks_g false decoded.
+
+(* ---------------------------------------------------------------------------------------
    internal/pkg/postprocessor/sitespecific/ina/ina.go  (no caller in the pipeline: dead code)
 
    func extractJWPlayerVersion(body string) string {
